@@ -518,7 +518,11 @@ func (r *Run) Finish() {
 				fmt.Fprintf(os.Stderr, "INFRA-ERROR property=%s %s\n", r.ID, e)
 			}
 		}
-		os.Exit(2)
+		if nviol == 0 {
+			os.Exit(2)
+		}
+		// a violation is a concrete, replayable failing case on the real code: it stands even if another part of the
+		// run could not be judged
 	}
 	if nviol > 0 {
 		os.Exit(1)
